@@ -294,6 +294,7 @@ def run(prop, tier, seed, repo=None, lean_out=None):
     res["summary"]["table"] = dict(files=len(table["files"]), adts=len(table["adts"]), aliases=len(table["aliases"]),
                                    callbacks=[c["name"] for c in table["callbacks"]],
                                    collect_impls=len(table["collectImpls"]), transmutes=len(table["transmutes"]),
+                                   helper_call_sites=len(table.get("callSites", [])),
                                    auto_impls=len(table["autoImpls"]), unclassified=table["unclassified"],
                                    unexpanded_item_macros=sorted({m[1] for m in table["itemMacros"]}))
 
